@@ -56,6 +56,14 @@ pub enum Scenario {
     OwnMessageEcho,
     /// self_update (creates a pending commit)
     SelfUpdateCall,
+    /// add_members at an admin (pending commit + welcome)
+    AddMembersCall,
+    /// remove_members at an admin
+    RemoveMembersCall,
+    /// update_group_data at an admin (name / relays / Nostr group id by `commit_kind`)
+    UpdateGroupDataCall,
+    /// leave_group (creates a proposal message)
+    LeaveGroupCall,
     RawSnapshot,
     RawRollback,
     RawRelays,
@@ -149,6 +157,10 @@ enum Target {
     CreateMessage,
     SelfUpdate,
     CreateGroup(Vec<Event>, #[serde(with = "keys_serde")] nostr::Keys),
+    AddMembers(Vec<Event>),
+    RemoveMembers(Vec<nostr::PublicKey>),
+    UpdateData(u8),
+    LeaveGroup,
 }
 
 mod keys_serde {
@@ -209,6 +221,18 @@ fn run_target(mdk: &AnyMdk, gid: &GroupId, keys: &nostr::Keys, t: &Target) -> Re
             on_mdk!(mdk, m => m.create_message(gid, rumor)).map(|_| "created".to_string()).map_err(|e| e.to_string())
         }
         Target::SelfUpdate => on_mdk!(mdk, m => m.self_update(gid)).map(|_| "self-update".to_string()).map_err(|e| e.to_string()),
+        Target::AddMembers(kps) => on_mdk!(mdk, m => m.add_members(gid, kps)).map(|_| "add-members".to_string()).map_err(|e| e.to_string()),
+        Target::RemoveMembers(pks) => on_mdk!(mdk, m => m.remove_members(gid, pks)).map(|_| "remove-members".to_string()).map_err(|e| e.to_string()),
+        Target::UpdateData(k) => {
+            let mut upd = mdk_core::groups::NostrGroupDataUpdate::default();
+            match k % 3 {
+                0 => upd.name = Some("crash-name".into()),
+                1 => upd.relays = Some(vec![crate::world::relay_url(5), crate::world::relay_url(6)]),
+                _ => upd.nostr_group_id = Some([0x5A; 32]),
+            }
+            on_mdk!(mdk, m => m.update_group_data(gid, upd)).map(|_| "update-group-data".to_string()).map_err(|e| e.to_string())
+        }
+        Target::LeaveGroup => on_mdk!(mdk, m => m.leave_group(gid)).map(|_| "leave".to_string()).map_err(|e| e.to_string()),
         Target::CreateGroup(kps, _) => {
             let cfg = mdk_core::groups::NostrGroupConfigData::new(
                 "crash group".into(),
@@ -246,7 +270,7 @@ fn build(case: &Case) -> Result<Option<Built>, Failure> {
     let first_spare = members as usize;
     backends[first_spare] = BackendKind::Sql; // the joiner for the welcome scenarios
     // victim is admin only where the scenario needs it
-    let admin_mask = if case.scenario == S::ProposalAtAdmin { 0b1 } else { 0 };
+    let admin_mask = if matches!(case.scenario, S::ProposalAtAdmin | S::AddMembersCall | S::RemoveMembersCall | S::UpdateGroupDataCall) { 0b1 } else { 0 };
     let setup = Setup {
         members,
         admin_mask,
@@ -379,6 +403,18 @@ fn build(case: &Case) -> Result<Option<Built>, Failure> {
         }
         S::CreateMessage => (Target::CreateMessage, "create_message".into()),
         S::SelfUpdateCall => (Target::SelfUpdate, "self_update".into()),
+        S::AddMembersCall => {
+            let kp = World::make_key_package(&w.clients[first_spare + 1]).map_err(|e| Failure::new("setup-failed", e))?;
+            (Target::AddMembers(vec![kp]), "add_members".into())
+        }
+        S::RemoveMembersCall => {
+            if members < 3 {
+                return Ok(None);
+            }
+            (Target::RemoveMembers(vec![w.clients[2].keys.public_key()]), "remove_members".into())
+        }
+        S::UpdateGroupDataCall => (Target::UpdateData(case.commit_kind), format!("update_group_data({})", ["name", "relays", "Nostr group id"][(case.commit_kind % 3) as usize])),
+        S::LeaveGroupCall => (Target::LeaveGroup, "leave_group".into()),
         S::RawSnapshot | S::RawRollback | S::RawRelays => unreachable!("raw scenarios are handled separately"),
     };
     // peers move on without the victim
@@ -581,7 +617,10 @@ fn enumerate(case: &Case, b: &Built, mode: Mode, rep: &mut CaseReport, trace: &m
     let base = w.clients[v].db_path.clone().ok_or_else(|| Failure::new("setup-failed", "victim has no database file"))?;
     let twin = w.dir.0.join("c12-twin.db");
     let work = w.dir.0.join("c12-work.db");
-    let is_local = matches!(b.target, Target::CreateMessage | Target::SelfUpdate | Target::CreateGroup(..));
+    let is_local = matches!(
+        b.target,
+        Target::CreateMessage | Target::SelfUpdate | Target::CreateGroup(..) | Target::AddMembers(..) | Target::RemoveMembers(..) | Target::UpdateData(..) | Target::LeaveGroup
+    );
 
     // ---- uninterrupted twin
     copy_db(&base, &twin)?;
@@ -636,9 +675,22 @@ fn enumerate(case: &Case, b: &Built, mode: Mode, rep: &mut CaseReport, trace: &m
     } else {
         (0..k_total).filter(|k| *k < 3 || *k + 3 >= k_total || k % (case.stride as u64 + 1) == 0).collect()
     };
+    // one more crash point: right after the call's last storage step, before it returns
+    let ks: Vec<u64> = ks.into_iter().chain(std::iter::once(k_total)).collect();
     for k in ks {
         copy_db(&base, &work)?;
-        if case.abort_in_child {
+        if k == k_total {
+            let mdk = open(&work, &cfg).map_err(|e| Failure::new("setup-failed", e))?;
+            for ev in &b.prelude {
+                let _ = on_mdk!(&mdk, m => m.process_message(ev));
+            }
+            let r = run_target(&mdk, &gid, &keys, &b.target);
+            if r.is_err() {
+                return Err(Failure::new("harness-error", format!("{} answered {r:?} on the work copy but succeeded on the twin", b.label)));
+            }
+            drop(mdk);
+            *rep.counters.entry("crash-points-after-the-last-step".into()).or_insert(0) += 1;
+        } else if case.abort_in_child {
             // a real process death: abort() in a child, hot journal and all
             match run_in_child(&work, k, &gid, &keys, &b.target, &b.prelude) {
                 Ok(true) => {
@@ -688,7 +740,7 @@ fn enumerate(case: &Case, b: &Built, mode: Mode, rep: &mut CaseReport, trace: &m
             // a local call may have staged its pending commit before dying: the documented way
             // out is clear_pending_commit and retry
             let mut ok = retry.is_ok();
-            if !ok && matches!(b.target, Target::SelfUpdate) {
+            if !ok && matches!(b.target, Target::SelfUpdate | Target::AddMembers(..) | Target::RemoveMembers(..) | Target::UpdateData(..)) {
                 let _ = on_mdk!(&mdk, m => m.clear_pending_commit(&gid));
                 let again = run_target(&mdk, &gid, &keys, &b.target);
                 retry_note = format!("{retry_note}, after clear_pending_commit: {again:?}");
@@ -832,7 +884,7 @@ fn strategy(tier: Tier) -> BoxedStrategy<Case> {
     use Scenario as S;
     let scen = prop::sample::select(vec![
         S::App, S::Proposal, S::ProposalAtAdmin, S::Commit, S::Commit, S::CommitWithRollback, S::OwnCommitEcho, S::MergePending,
-        S::CommitEvictingVictim, S::ProcessWelcome, S::AcceptWelcome, S::CreateGroup, S::CreateMessage, S::OwnMessageEcho, S::SelfUpdateCall,
+        S::CommitEvictingVictim, S::ProcessWelcome, S::AcceptWelcome, S::CreateGroup, S::CreateMessage, S::OwnMessageEcho, S::SelfUpdateCall, S::AddMembersCall, S::RemoveMembersCall, S::UpdateGroupDataCall, S::LeaveGroupCall,
         S::RawSnapshot, S::RawRollback, S::RawRelays,
     ]);
     let stride: BoxedStrategy<u8> = match tier {
@@ -859,14 +911,14 @@ fn strategy(tier: Tier) -> BoxedStrategy<Case> {
 
 pub fn main(args: &Args) -> i32 {
     let cases = match args.tier {
-        Tier::Quick => 160,
+        Tier::Quick => 200,
         Tier::Thorough => 16 * 300,
     };
     let tier = args.tier;
     let spec = Spec {
         id: "C12",
         level: "fault_enumeration",
-        rule: "generated scenarios (operation class x group size 2..4 x warm-up commits/messages x commit kind): create_group, create_message, self_update, merge_pending_commit, process_message for application / leave proposal (admin and non-admin receiver) / commit (self-update, id rotation, add, relay change, removal of the victim) / better competing commit with rollback / own commit echo, process_welcome, accept_welcome, and the raw snapshot / rollback / relay-replacement transactions. For each scenario EVERY storage tick k of the call is enumerated: the call runs on a fresh copy of the victim's database with the hook armed to panic at k, the instance is dropped, the file reopened. Oracle: the database opens, every group loads, the interrupted event offered again plus all later events ends in the uninterrupted twin's exact observable state (local calls: the retry succeeds and every active group mirrors its MLS state); raw transactions: the dump equals the pre- or the post-state. evaluations = crash points executed; non-trivial = a crash strictly inside a multi-statement operation; distinct = distinct scenarios".into(),
+        rule: "generated scenarios (operation class x group size 2..4 x warm-up commits/messages x commit kind): create_group, create_message, self_update, add_members, remove_members, update_group_data (name / relays / Nostr group id), leave_group, merge_pending_commit, process_message for application / leave proposal (admin and non-admin receiver) / commit (self-update, id rotation, add, relay change, removal of the victim) / better competing commit with rollback / own commit echo, process_welcome, accept_welcome, and the raw snapshot / rollback / relay-replacement transactions. For each scenario EVERY storage tick k of the call is enumerated, plus the point right after the last one (the call has done everything but has not returned): the call runs on a fresh copy of the victim's database with the hook armed to panic at k, the instance is dropped, the file reopened. Oracle: the database opens, every group loads, the interrupted event offered again plus all later events ends in the uninterrupted twin's exact observable state (local calls: the retry succeeds and every active group mirrors its MLS state); raw transactions: the dump equals the pre- or the post-state. evaluations = crash points executed; non-trivial = a crash strictly inside a multi-statement operation; distinct = distinct scenarios".into(),
         assumptions: vec![
             "process death is simulated by unwinding out of the call and dropping the instance (the connection is closed, an open transaction is rolled back exactly as a hot journal would be on reopen); power loss / torn pages are out of scope".into(),
             "ticks sit at every with_connection call and at every statement boundary of the snapshot / restore / relay transactions (hook commits in MANIFEST.hooks)".into(),
